@@ -197,9 +197,46 @@ def _nontrivial(steps):
 
 
 # ------------------------------------------------------------------ validation of one group
+def _validate_prefixed(ctx, evs, name, max_rejects=2, timeout=1500):
+    """like vf.validate_blocks (monitor only), but the first block (configuration + digest table of
+    the group) is kept in front of whatever remains to be validated after a rejected block"""
+    blocks = vf.split_traces(evs)
+    head, cur = blocks[0], blocks[1:]
+    d = ctx.sub("val_" + name)
+    rejects, good, rounds = [], 0, 0
+    while True:
+        rounds += 1
+        flat = [{"ev": "reset", "id": head[0]}] + head[1]
+        index = []
+        for bid, e in cur:
+            index.append(len(flat))
+            flat.append({"ev": "reset", "id": bid})
+            flat.extend(e)
+        tp = os.path.join(d, "t%d.ndjson" % rounds)
+        vf.write_ndjson(tp, flat)
+        ok, info = ctx.validate_trace(MON[0], MON[1], tp, name="%s_mon%d" % (name, rounds), timeout=timeout)
+        if ok:
+            good += len(cur)
+            break
+        if "high" not in info:
+            raise vf.Infra("monitor broke on observed trace: %s" % info)
+        pos = info["high"]
+        if not index or pos < index[0]:
+            rejects.append({"id": head[0], "info": info, "events": head[1], "at": pos - 1})
+            break                   # the digest table itself is refused: nothing else can be read
+        bi = max(i for i, start in enumerate(index) if start <= pos)
+        rejects.append({"id": cur[bi][0], "info": info, "events": cur[bi][1], "at": pos - index[bi] - 1})
+        good += bi
+        cur = cur[bi + 1:]
+        if len(rejects) >= max_rejects or not cur:
+            break
+    ctx.traces_validated += good
+    return good, rejects
+
+
 def _validate_group(ctx, a, evs, name, impl_hint):
     """monitor (verdict) + conformance with the expiry predicate that matches the tree"""
-    acc, rejects = vf.validate_blocks(ctx, MON, evs, name, timeout=1500)
+    acc, rejects = _validate_prefixed(ctx, evs, name)
     impl_ok = None
     if not rejects:
         d = ctx.sub("val_" + name)
